@@ -46,11 +46,12 @@ def cases(tier, seed, shard, nshards):
             idx += 1
             if idx % nshards == shard:
                 yield {"kind": "seq", "ops": list(ops), "lock": (idx // nshards) % 2 == 0,
-                       "exc": PLANNED_NAMES[(idx // (2 * nshards)) % len(PLANNED_NAMES)]}
+                       "exc": PLANNED_NAMES[(idx // (2 * nshards)) % len(PLANNED_NAMES)],
+                       "falsy": [None, "none", "zero", None, "false", "empty"][(idx // nshards) % 6]}
     rng = random.Random(f"C12-{seed}-{shard}")
     for _ in range(N_SEQ_RANDOM[tier] // nshards):
         yield {"kind": "seq", "ops": [rng.choice(SEQ_OPS) for _ in range(rng.randint(6, 15))], "lock": rng.random() < 0.5,
-               "exc": rng.choice(PLANNED_NAMES)}
+               "exc": rng.choice(PLANNED_NAMES), "falsy": rng.choice([None, None, "none", "zero", "false", "empty"])}
     n = max(1, N_SCEN[tier] // nshards)
     for i in range(n):
         mode = ["dfs", "random", "pct", "dfs"][i % 4]
@@ -86,7 +87,13 @@ def run_seq(case, stats):
         if state["fail"]:
             state["fail"] = False
             raise _planned(case)(rid)
-        return ("val", self.tag, rid)
+        return val(self.tag, rid)
+
+    def val(tag, rid):
+        # the first instance's property may evaluate to None or another falsy value: cached like any other
+        if tag == 0 and case.get("falsy") is not None:
+            return {"none": None, "zero": 0, "false": False, "empty": ""}[case["falsy"]]
+        return ("val", tag, rid)
 
     if case["lock"]:
         prop = A.cached_property(VLock)(getter)
@@ -120,7 +127,7 @@ def run_seq(case, stats):
                 want = ("failed",)
                 slot[i] = "placeholder"
             else:
-                want = ("ok", ("val", i, runs_before + 1))
+                want = ("ok", val(i, runs_before + 1))
                 slot[i] = ("value", want[1])
         if res != want or ran != want_ran:
             what = "getter-runs" if ran != want_ran else "value"
